@@ -1,6 +1,7 @@
 (* C04 - regression witnesses: the decision / lookup functions as they were on
-   the pinned tree (before the fix: commits for D3, D20, D23) and the tables
-   on which the property fails for them. *)
+   the pinned tree (before the fix: commits for D3, D20, D23, for the letter
+   table indexed with a plain char, and for the default handler that ran on
+   one path only) and the tables on which the property fails for them. *)
 From Coq Require Import List ZArith Bool.
 From RtoscV Require Import Match.PatSpec Match.MatchModel Ports.DispatchModel.
 Import ListNotations.
@@ -118,9 +119,110 @@ Lemma d23_refuted :
   run_old tab_d23 [47; 97; 98] false = [] /\ run_old tab_d23 [47; 97; 98] true = [0].
 Proof. vm_compute. split; reflexivity. Qed.
 
-(* the repaired functions on the same tables and messages *)
+(* the repaired functions on the same tables and messages (find_assoc now
+   makes 256 entries: the same tables, padded) *)
+Definition widen (T : table) : table :=
+  {| t_id := t_id T; t_dflt := t_dflt T; t_ports := t_ports T; t_pos := t_pos T;
+     t_assoc := t_assoc T ++ repeat 0 (256 - length (t_assoc T)) |}.
+
 Lemma witnesses_repaired :
-  run_new tab_d3 [47; 97; 98] true = [0] /\ run_new tab_d3 [47; 97; 98] false = [0] /\
-  run_new tab_d20 [47; 97; 47; 98] true = [1] /\ run_new tab_d20 [47; 97; 47; 98] false = [1] /\
-  run_new tab_d23 [47; 97; 98] true = [] /\ run_new tab_d23 [47; 97; 98] false = [].
+  run_new (widen tab_d3) [47; 97; 98] true = [0] /\ run_new (widen tab_d3) [47; 97; 98] false = [0] /\
+  run_new (widen tab_d20) [47; 97; 47; 98] true = [1] /\ run_new (widen tab_d20) [47; 97; 47; 98] false = [1] /\
+  run_new (widen tab_d23) [47; 97; 98] true = [] /\ run_new (widen tab_d23) [47; 97; 98] false = [].
+Proof. vm_compute. repeat split; reflexivity. Qed.
+
+(* ---- the letter table indexed with a plain char ------------------------------
+   before "fix: the perfect-hash letter table was indexed with a plain char":
+   assoc had 127 entries and Ports::dispatch read assoc[m[p]] with m a
+   `const char *`: a byte >= 0x80 is a negative index, 0x7f is one past the end. *)
+Definition assoc_at_old (assoc : list Z) (c : Z) : option Z :=
+  let sc := if c <? 128 then c else c - 256 in         (* (char)c on the pinned platforms *)
+  if sc <? 0 then None else nth_error assoc (Z.to_nat sc).
+
+Fixpoint hash_sum_old (assoc : list Z) (s : str) (pos : list Z) : option Z :=
+  match pos with
+  | [] => Some 0
+  | p :: r =>
+      match hash_sum_old assoc s r with
+      | None => None
+      | Some acc =>
+          if (0 <=? p) && (p <? Z.of_nat (length s)) then
+            match nth_error s (Z.to_nat p) with
+            | Some c => match assoc_at_old assoc c with Some a => Some (a + acc) | None => None end
+            | None => None
+            end
+          else Some acc
+      end
+  end.
+
+(* None = the hashed branch read outside the vector *)
+Definition hash_of_old (pos assoc : list Z) (s : str) : option Z :=
+  match hash_sum_old assoc s pos with Some x => Some (Z.of_nat (length s) + x) | None => None end.
+
+(* {ab, cd, ef}: pos = [0], assoc a = 1, c = 2 (the library's search result) *)
+Definition assoc_ace (n : nat) : list Z := repeat 0 97 ++ [1; 0; 2] ++ repeat 0 (n - 100).
+Definition tab_hi (n : nat) : table :=
+  {| t_id := 0; t_dflt := false;
+     t_ports := [([97; 98], false); ([99; 100], false); ([101; 102], false)];
+     t_pos := [0]; t_assoc := assoc_ace n |}.
+
+(* "/\xe9\xe9" and "/\x7f": the pinned lookup reads outside its 127 entries *)
+Lemma highbyte_refuted :
+  tables_of (tab_hi 127) <> None /\
+  hash_of_old [0] (assoc_ace 127) [233; 233] = None /\
+  hash_of_old [0] (assoc_ace 127) [127] = None.
+Proof. vm_compute. repeat split; discriminate. Qed.
+
+(* repaired: 256 entries, unsigned index: every byte has its entry, the lookup
+   finds no port, nothing is logged (no EvError), with and without buffer *)
+Lemma highbyte_repaired :
+  hash_of [0] (assoc_ace 256) [233; 233] = Some 2 /\
+  hash_of [0] (assoc_ace 256) [127] = Some 1 /\
+  log (dispatch_table (leaf_cb (tab_hi 256)) no_dh (tab_hi 256) [47; 233; 233] [] true (init_state true 1)) = [] /\
+  log (dispatch_table (leaf_cb (tab_hi 256)) no_dh (tab_hi 256) [47; 233; 233] [] true (init_state false 1)) = [] /\
+  run_new (tab_hi 256) [47; 97; 98] true = [0].
+Proof. vm_compute. repeat split; reflexivity. Qed.
+
+(* ---- the default handler ran on one path only ---------------------------------
+   before "fix: a table's default handler ... ran only when the table had a perfect
+   hash and a location buffer was supplied": dispatch_table_old has no default
+   handler in its two scans. *)
+Definition log_dh (T : table) : str -> dstate -> dstate :=
+  fun msg d => add_log d (EvDefault (t_id T) msg (obj d) (loc d)).
+Fixpoint defaults (l : list event) : nat :=
+  match l with
+  | [] => O
+  | EvDefault _ _ _ _ :: r => S (defaults r)
+  | _ :: r => defaults r
+  end.
+Definition dflt_old (T : table) (m : str) (with_loc : bool) : nat :=
+  defaults (log (dispatch_table_old (leaf_cb T) (log_dh T) T m [] true (init_state with_loc 1))).
+Definition dflt_new (T : table) (m : str) (with_loc : bool) : nat :=
+  defaults (log (dispatch_table (leaf_cb T) (log_dh T) T m [] true (init_state with_loc 1))).
+
+Definition with_dflt (T : table) : table :=
+  {| t_id := t_id T; t_dflt := true; t_ports := t_ports T; t_pos := t_pos T; t_assoc := t_assoc T |}.
+(* {a#2, cd} with a default handler: never hashed *)
+Definition tab_lin : table :=
+  {| t_id := 0; t_dflt := true; t_ports := [([97; 35; 50], false); ([99; 100], false)];
+     t_pos := []; t_assoc := [] |}.
+
+(* /zz: pinned, the hashed table {ab,cd,ef} runs its default handler with a
+   location buffer and not without; the unhashed {a#2,cd} never runs it *)
+Lemma default_path_refuted :
+  dflt_old (with_dflt (tab_hi 127)) [47; 122; 122] true = 1%nat /\
+  dflt_old (with_dflt (tab_hi 127)) [47; 122; 122] false = 0%nat /\
+  dflt_old tab_lin [47; 122; 122] true = 0%nat /\
+  dflt_old tab_lin [47; 122; 122] false = 0%nat.
+Proof. vm_compute. repeat split; reflexivity. Qed.
+
+(* repaired: once on every path; not at all when a port matches *)
+Lemma default_path_repaired :
+  dflt_new (with_dflt (tab_hi 256)) [47; 122; 122] true = 1%nat /\
+  dflt_new (with_dflt (tab_hi 256)) [47; 122; 122] false = 1%nat /\
+  dflt_new tab_lin [47; 122; 122] true = 1%nat /\
+  dflt_new tab_lin [47; 122; 122] false = 1%nat /\
+  dflt_new tab_lin [47; 97; 49] true = 0%nat /\ dflt_new tab_lin [47; 97; 49] false = 0%nat /\
+  dflt_new (with_dflt (tab_hi 256)) [47; 99; 100] true = 0%nat /\
+  dflt_new (with_dflt (tab_hi 256)) [47; 99; 100] false = 0%nat.
 Proof. vm_compute. repeat split; reflexivity. Qed.
